@@ -296,7 +296,9 @@ func Execute(t *testing.T, cfg *RunConfig) *Outcome {
 			if cc.Fault.Kind == "" {
 				cc.Fault.Kind = "none"
 			}
-			cst := BuildStream(co.Stream, cc.Required())
+			// (twice what it needs: should the observed call help itself to the
+			// companion's source, the bytes do not run out before a verdict)
+			cst := BuildStream(co.Stream, 2*cc.Required())
 			csrc := NewSimSource(cst, &cc, true)
 			ct := simrt.Child("companion")
 			if ct == nil {
@@ -304,7 +306,21 @@ func Execute(t *testing.T, cfg *RunConfig) *Outcome {
 			}
 			rs.addCompanion(ct.ID)
 			wf, nb := co.Workflow, co.NumByte
-			go simrt.RunTask(ct, func() { callWorkflow(wf, csrc, nb) })
+			// the companion's source is the same kind of Go object as the observed one
+			var chanded io.Reader = csrc
+			switch cfg.Carrier {
+			case "func":
+				chanded = readerFunc(csrc.Read)
+			case "valuestruct":
+				chanded = valueSource{dev: csrc, tags: []string{"rng1"}}
+			case "seeker":
+				chanded = seekableSim{dev: csrc}
+			}
+			go simrt.RunTask(ct, func() { callWorkflow(wf, chanded, nb) })
+		}
+		if len(cfg.Companion) > 0 {
+			// let the scheduler decide who gets going first
+			simrt.Yield("companions-started")
 		}
 		v, err := callWorkflow(cfg.Workflow, handed, cfg.NumByte)
 		out.Verdict = v
